@@ -1,7 +1,7 @@
 #!/bin/bash
 # usage: try_all.sh <patch.diff>  — applies the patch to a scratch copy of /repo and runs every property's rules on it (one load)
 set -u
-patch=$1
+patch=$(readlink -f "$1")
 d=$(mktemp -d /tmp/hidimut.XXXXXX)
 rsync -a --exclude .git /repo/ $d/
 if ! (cd $d && patch -p1 -s --no-backup-if-mismatch < "$patch"); then echo "PATCH FAILED"; rm -rf $d; exit 3; fi
